@@ -29,7 +29,7 @@ CLAIMS = {
     "C01": dict(
         technique="rapid-generated (source tree, prior destination, option) triples run through the real Send/Receive pair over a harness stream; oracle = independent lstat snapshot vs the tree model",
         text="Tens of thousands of generated source trees and prior destinations (independent trees over a colliding name pool, or 1-5 model edits of the source; fresh, dirty and merge mode; on-disk and synthetic sources; differ metadata/none; owner-rewriting filter; stream capacities 0-64) are synchronised with the real sender and receiver; the destination is then observed with the harness's own lstat/readlink/xattr/sha256 walker and compared two-directionally with the model (path set, types, bytes, 12 mode bits, owner, link targets, device numbers, hard-link partition, ns mtimes, xattrs; merge: overlay with survivors inode-identical). Sampled, no proof.",
-        note="Privileged receiver on tmpfs; the unprivileged-receiver configuration of the quantifier is not exercised yet. Files with equal identity are given equal bytes (precondition of identity-based differencing). Error returns are counted, not judged (C04).",
+        note="Main run: privileged receiver on tmpfs; a sub-run executes both ends as uid 1000 in a chrooted sub-process. Trees include files with security.capability and non-root owners. Files with equal identity are given equal bytes (precondition of identity-based differencing). Error returns are counted, not judged (C04).",
         ref="4 C01"),
     "C02": dict(
         technique="rapid-generated edit histories (stateful: sync, edit, re-sync ...) against the real Send/Receive; oracle = harness-side identity function over announced STATs and an independent snapshot, REQ log mapped through the STAT index",
@@ -58,12 +58,12 @@ CLAIMS = {
         ref="4 C19"),
     "C11": dict(
         technique="rapid-generated trees with hard-link groups x filter stacks through the real Send/Receive pair; stream specification + link-closure monitor on the STAT log, C01's snapshot oracle on the filtered view, walk/Open agreement",
-        text="Generated on-disk trees with hard-link groups of regular files and fifos spread over directories are wrapped in 1-2 nested NewFilterFS levels (include, exclude, follow-paths) and sent with the real sender. The STAT log must satisfy the independent stream specification and every link must name an earlier non-link entry; the transfer must succeed and the destination must equal the filtered walk's entries with a hard-link partition recomputed from source inodes restricted to reported paths; every reported regular file must open through the view with its bytes and every hidden one must not. Sampled, no proof.",
+        text="Generated on-disk trees with hard-link groups of regular files and fifos spread over directories are wrapped in 1-2 nested NewFilterFS levels (include, exclude, follow-paths) and sent with the real sender. The STAT log must satisfy the independent stream specification and every link must name an earlier non-link entry; the transfer must succeed and the destination must equal the filtered walk's entries with a hard-link partition recomputed from source inodes restricted to reported paths; the announced path set must equal an independent reference view computed level by level (naive filter over the ordered pattern list, follow-path targets from the harness's own resolver); every reported regular file must open through the view with its bytes and every hidden one must not. Sampled, no proof.",
         note="Walk/Open disagreements on paths where the dependency's MatchesOrParentMatches and MatchesUsingParentResults disagree are the listed known finding; everything else is a violation.",
         ref="4 C11"),
     "C16": dict(
         technique="rapid-generated trees x pattern lists through copy.Copy, three-way differential: written path set vs naive reference filter vs real filtered Walk; snapshot comparison of what was written and of what must stay untouched",
-        text="copy.Copy with include/exclude patterns is run on generated trees into empty and populated destinations (unrelated old files, existing copies of source directories, old non-directories at source paths). The set of written paths must equal the reference filter's kept set plus ancestors and the set a filtered walk reports; nothing else may be created, changed or removed; written entries (including ancestors created on demand) must carry the source's type, bytes, mode, owner and xattrs. Sampled, no proof.",
+        text="copy.Copy with include/exclude patterns is run on generated trees into empty and populated destinations (unrelated old files, existing copies of source directories, old non-directories at source paths incl. the paths of unselected directories); sources contain hard-link groups that the patterns split. The set of written paths must equal the reference filter's kept set plus ancestors and the set a filtered walk reports; nothing else may be created, changed or removed; written entries (including ancestors created on demand) must carry the source's type, bytes, mode, owner and xattrs, and the hard-link partition of the written set must be the source's restricted to it. Sampled, no proof.",
         note="Same dependency-divergence known finding as C10 (copy and walk agree with each other there).",
         ref="4 C16"),
     "C13": dict(
@@ -78,16 +78,16 @@ CLAIMS = {
         ref="4 C15"),
     "C03": dict(
         technique="rapid-generated hostile packet scripts (legal STAT sequences with 0-3 mutations and packet injections) executed by a reference sender against the real Receive inside a chrooted sub-process; lstat-only snapshot of the whole jail; independent stream classification; native fuzz over the same generator in thorough",
-        text="A hostile reference sender feeds the real receiver mutated streams ('..', '.', empty, absolute, unclean, backslashed and NUL paths; unordered, duplicated and parent-less entries; children of files and symlinks; hard links to unknown/escaping names incl. special mode bits; symlinks with xattrs and outside targets; unsolicited, late and oversized DATA; early FIN/ERR/marker/EOF) into destinations that already hold symlinks to an outside sentinel tree, in normal, merge and metadata-only mode. The receiver runs chrooted in a throw-away jail; the parent compares an lstat snapshot of everything outside dest (incl. dest's own entry and its parent) bit for bit, and checks that a stream the independent classification calls offending at entry k fails and applies nothing from k on, and that a process crash never happens. Sampled + coverage-guided (thorough), no proof.",
+        text="A hostile reference sender feeds the real receiver mutated streams ('..', '.', empty, absolute, unclean, backslashed and NUL paths; unordered, duplicated and parent-less entries; children of files and symlinks; hard links to unknown/escaping names incl. special mode bits; symlinks with xattrs and outside targets; unsolicited, late and oversized DATA; early FIN/ERR/marker/EOF) into destinations that already hold symlinks to an outside sentinel tree, in normal, merge, metadata-only and merge+metadata-only mode. The receiver runs chrooted in a throw-away jail; the parent compares an lstat snapshot of everything outside dest (incl. dest's own entry and its parent) bit for bit, and checks that a stream the independent classification calls offending at entry k fails and applies nothing from k on, and that a process crash never happens. Sampled + coverage-guided (thorough), no proof.",
         note="TOCTOU races with a concurrently changing destination are out of scope. A hard link naming an earlier directory/symlink/link member is 'unspecified' (containment only).",
         ref="4 C03"),
     "C14": dict(
         technique="rapid-generated symlink-laden (source tree, destination tree, src path, dst path, options) through copy.Copy inside a chrooted sub-process; lstat-only snapshot of the jail; byte provenance through unique file contents",
-        text="Source and destination trees are planted with symlinks of every hostile shape (absolute to a sentinel tree, '..' beyond the root, dangling, to not-yet-existing outside names, loops) and the src/dst arguments are drawn to pass through them; follow-links, wildcards, always-replace and dir-contents are varied. The real Copy runs chrooted; afterwards every entry outside the destination root (sentinel tree and the entire source root) must be bit-identical incl. ctime, nothing may have been created there, and every new or changed regular file under the destination root must carry the unique bytes of a file inside the source root. Sampled, no proof.",
+        text="Source and destination trees are planted with symlinks of every hostile shape (absolute to a sentinel tree, '..' beyond the root, dangling, to not-yet-existing outside names, loops) and the src/dst arguments are drawn to pass through them; follow-links, wildcards, always-replace, dir-contents, include/exclude patterns and the Mode/ModeStr/Chown options are varied, and a steered scenario makes the destination parent of the first selected entry a symlink leading outside. The real Copy runs chrooted; afterwards every entry outside the destination root (sentinel tree and the entire source root) must be bit-identical incl. ctime, nothing may have been created there, and every new or changed regular file under the destination root must carry the unique bytes of a file inside the source root. Sampled, no proof.",
         note="TOCTOU with concurrent mutation is out of scope; the exact landing place for symlinked arguments is not asserted beyond containment and byte provenance.",
         ref="4 C14"),
     "C17": dict(
-        technique="rapid-generated views (on-disk, synthetic, filtered with hard-link reset) through WriteTar; differential against archive/tar's reader, an own minimal extractor and (thorough) GNU tar; C01's snapshot oracle on the extracted tree",
+        technique="rapid-generated views (on-disk, synthetic, filtered with hard-link reset and a second name-hiding Map layer) through WriteTar; differential against archive/tar's reader, an own minimal extractor and (thorough) GNU tar; C01's snapshot oracle on the extracted tree",
         text="WriteTar output for generated views is parsed with archive/tar to EOF and compared member by member with the view's entries in walk order (names with trailing slash, exact bytes, payload-free link members, device numbers, 12 mode bits, owner, mtime to the second, SCHILY.xattr records); the archive is then extracted by an own minimal extractor and, in the thorough tier, by GNU tar, and the result is compared with the view using C01's snapshot comparison at second granularity incl. the hard-link partition. Sampled, no proof.",
         note="Trusts archive/tar's reader and GNU tar 1.34. Filtered views are wrapped in WithHardlinkReset (the form Send uses). Walk/Open divergence of the dependency is the listed known finding.",
         ref="4 C17"),
@@ -104,7 +104,7 @@ CLAIMS = {
         ref="4 C04"),
     "C08": dict(
         technique="metamorphic testing over schedules: one case executed under M harness-steered schedules (capacities, GOMAXPROCS, seeded per-operation delays, read gates) with outcome equality as the oracle; in-flight counters on the harness stream; Go race detector build on half of the shards",
-        text="A fixed source/destination pair with 30-120 multi-chunk files is transferred under 6 (quick) or 24 (thorough) drawn schedules: stream capacity 0-64, GOMAXPROCS 1-16, deterministic per-operation disturbances before and after every stream call, before every source read and inside the hasher/notify callbacks, and a gate that releases parked readers in a drawn order. The canonical outcome (destination snapshot, content-request set, notification set with digests, hard-link exception removed) must be identical across schedules; the raw endpoints handed to Send/Receive count in-flight calls and must never see two SendMsg or two RecvMsg at once; odd shards run under the race detector. Sampled schedules, no proof.",
+        text="A fixed source/destination pair with 30-120 multi-chunk files (or 400/700 smaller ones) is transferred under 6 (quick) or 24 (thorough) drawn schedules: stream capacity 0-64, GOMAXPROCS 1-16, deterministic per-operation disturbances before and after every stream call, before every source read and inside the hasher/notify callbacks, and a gate that releases parked readers in a drawn order. The canonical outcome (destination snapshot, content-request set, notification set with digests, hard-link exception removed) must be identical across schedules, and a run that becomes quiescent without returning under any schedule is a violation; the raw endpoints handed to Send/Receive count in-flight calls and must never see two SendMsg or two RecvMsg at once; odd shards run under the race detector. Sampled schedules, no proof.",
         note="Go offers no deterministic scheduler: interleavings inside one end that never touch the stream, a read or a callback are only perturbed. Absence of data races is established for the explored executions only.",
         ref="4 C08"),
 }
